@@ -240,13 +240,16 @@ Section Sums.
        + ra * rb * rc * u (a + 1)%Z (b + 1)%Z (c + 1)%Z)%F.
   Proof.
     intros. unfold sum3.
-    rewrite (Zsum_ext 0 n1 _
-      (fun i => (w2 a ea ra i *
-                 (fun i => Zsum 0 n2 (fun j => (w2 b eb rb j *
-                    (fun j => Zsum 0 n3 (fun k => (w2 c ec rc k * u i j k)%F)) j)%F)) i)%F)).
-    2:{ intros i _. cbv beta. rewrite <- Zsum_scal. apply Zsum_ext; intros j _.
+    set (g3 := fun i j => Zsum 0 n3 (fun k => (w2 c ec rc k * u i j k)%F)).
+    set (g2 := fun i => Zsum 0 n2 (fun j => (w2 b eb rb j * g3 i j)%F)).
+    rewrite (Zsum_ext 0 n1 _ (fun i => (w2 a ea ra i * g2 i)%F)).
+    2:{ intros i _. unfold g2, g3. rewrite <- Zsum_scal. apply Zsum_ext; intros j _.
         rewrite <- !Zsum_scal. apply Zsum_ext; intros k _. ring. }
-    rewrite Zsum_w2 by lia. cbv beta.
-    rewrite !Zsum_w2 by lia. cbv beta. rewrite !Zsum_w2 by lia. ring.
+    rewrite (Zsum_w2 n1 a ea ra g2) by lia. unfold g2.
+    rewrite (Zsum_w2 n2 b eb rb (g3 a)), (Zsum_w2 n2 b eb rb (g3 (a + 1))) by lia.
+    unfold g3.
+    rewrite (Zsum_w2 n3 c ec rc (u a b)), (Zsum_w2 n3 c ec rc (u a (b + 1))),
+      (Zsum_w2 n3 c ec rc (u (a + 1) b)), (Zsum_w2 n3 c ec rc (u (a + 1) (b + 1))) by lia.
+    ring.
   Qed.
 End Sums.
